@@ -2474,6 +2474,13 @@ func (r *Resolver) findDS(ctx context.Context, signer, qname string, parentDS []
 // the zone.
 func (r *Resolver) isZoneSecure(ctx context.Context, qname string, parentDS []dns.RR, zone string) bool {
 	if !hasSupportedDS(parentDS) {
+		// The root has no parent and therefore no DS: the trust anchors
+		// stand in for one. With anchors configured the root zone is
+		// signed, and an unsigned answer from it is a failure, not an
+		// insecure zone.
+		if zone == "." && len(parentDS) == 0 && r.dnssec && r.hasTrustAnchors() {
+			return true
+		}
 		// Either no DS records, or every DS uses a digest type this
 		// validator cannot verify. RFC 6840 §5.2 treats such zones as
 		// if DNSSEC were absent, so missing RRSIGs are acceptable.
